@@ -12,7 +12,7 @@ ID = "C01"
 BUDGET = {"quick": 4000, "thorough": 120000}
 REQUIRED = ["outcome:success", "outcome:InconsistentGradingsError", "outcome:UndefinedGradingsError", "judged:multigraded-direction",
             "judged:edge-with-2+-blocks", "judged:wires-vs-written", "judged:second-write", "judged:assembly-with-merged-pair",
-            "judged:write-again-after-a-refused-write"]
+            "judged:write-again-after-a-refused-write", "judged:conflict-added-then-cleared-and-written-again"]
 MIN_KEYS = 40
 RULE = (
     "random sub-assemblies of a jittered <=3x3x2 lattice (face / edge-only / vertex-only contacts), each block "
@@ -245,7 +245,33 @@ def run_case(ctx, case):
             util.rm(path2)
             ctx.violation(f"second-write:{got2}", f"the first write succeeded, the second raised {got2}: {err2}")
             return
-        judge_file(ctx, case, mesh, path2, fam, fam_counts, tag="second-write:")
+        if not judge_file(ctx, case, mesh, path2, fam, fam_counts, tag="second-write:"):
+            return
+    # history: the script goes on - one more chop on another block of a family that already has its count (a different one),
+    # the mesh is cleared and written again: the re-assembled mesh has to be refused like a fresh one
+    if sum(len(b["chops"]) for b in case["blocks"]) % 2 == 0:
+        for r, members in sorted(fam.items(), key=lambda kv: kv[1][0]):
+            n = fam_counts.get(r)
+            blocks_in = sorted({b for b, _ in members})
+            if isinstance(n, int) and len(blocks_in) >= 2:
+                carriers = {b for b, a in members if any(ax == a for ax, _ in case["blocks"][b]["chops"])}
+                others = [(b, a) for b, a in members if b not in carriers]
+                if not others:
+                    continue
+                b1, a1 = others[0]
+                ops[b1].chop(a1, count=n + 2)
+                mesh.clear()
+                path3 = util.tmpfile("c01")
+                got3, err3 = util.write_outcome(mesh, path3)
+                ctx.count("judged:conflict-added-then-cleared-and-written-again")
+                if got3 == "success":
+                    ctx.violation("conflict-written:after-one-more-chop-and-clear",
+                                  f"first write fine; then block {b1} axis {a1} chopped with count {n + 2} (its family has {n}), clear(), write: "
+                                  "a dictionary was produced; " + _edge_report(path3))
+                elif got3 != "InconsistentGradingsError":
+                    ctx.violation(f"wrong-error:after-one-more-chop-and-clear:{got3}", f"{err3}")
+                util.rm(path3)
+                break
 
 
 def judge_file(ctx, case, mesh, path, fam, fam_counts, tag=""):
